@@ -33,6 +33,9 @@ struct Case {
     emitters: Vec<Vec<EOp>>,
     owner_delay: usize,
     owner_into_inner: bool,
+    /// the emitters keep the handles their register calls return until the case is over (a caller holding
+    /// `let c = counter!(..)`); such a handle is the recorder's own object and must not keep the recorder itself
+    retain: bool,
 }
 
 #[derive(Debug, Clone)]
@@ -64,16 +67,34 @@ fn execute(case: &Case, sched_bytes: &[u8], explicit: Option<Vec<(u64, usize)>>)
     let _keep_alive = (double.in_scope.clone(), double.finalized.clone(), double.log.clone());
     let (wrapped, handle) = RecoverableRecorder::new(double).__verif_build();
     let events: Mutex<Vec<Ev>> = Mutex::new(Vec::new());
+    let kept: Mutex<Vec<crate::doubles::KeptHandle>> = Mutex::new(Vec::new());
+    let retain = case.retain;
     let mut bodies: Vec<Box<dyn FnOnce() + Send + '_>> = Vec::new();
     for (t, ops) in case.emitters.iter().enumerate() {
-        let (wrapped, events, log) = (&wrapped, &events, &log);
+        let (wrapped, events, log, kept) = (&wrapped, &events, &log, &kept);
         bodies.push(Box::new(move || {
             let me = std::thread::current().id();
             for (k, op) in ops.iter().enumerate() {
                 let before = log.lock().unwrap().iter().filter(|e| e.thread == me).count();
                 events.lock().unwrap().push(Ev::EmitStart(t, k));
                 let key = Key::from_name(format!("m{}_{}", t, k));
+                use crate::doubles::KeptHandle;
                 match op {
+                    EOp::Counter if retain => {
+                        let h = wrapped.register_counter(&key, &META);
+                        h.increment(1);
+                        kept.lock().unwrap().push(KeptHandle::C(h));
+                    }
+                    EOp::Gauge if retain => {
+                        let h = wrapped.register_gauge(&key, &META);
+                        h.set(2.0);
+                        kept.lock().unwrap().push(KeptHandle::G(h));
+                    }
+                    EOp::Histogram if retain => {
+                        let h = wrapped.register_histogram(&key, &META);
+                        h.record(3.0);
+                        kept.lock().unwrap().push(KeptHandle::H(h));
+                    }
                     EOp::Counter => wrapped.register_counter(&key, &META).increment(1),
                     EOp::Gauge => wrapped.register_gauge(&key, &META).set(2.0),
                     EOp::Histogram => wrapped.register_histogram(&key, &META).record(3.0),
@@ -125,7 +146,10 @@ fn execute(case: &Case, sched_bytes: &[u8], explicit: Option<Vec<(u64, usize)>>)
     }
     drop(wrapped);
     let l = log.lock().unwrap().clone();
-    RunOut { events, out, drops: drops.load(Ordering::SeqCst), log: l }
+    // (the kept metric handles are still alive here: they must not have kept the recorder)
+    let dropped = drops.load(Ordering::SeqCst);
+    drop(kept);
+    RunOut { events, out, drops: dropped, log: l }
 }
 
 fn oracle(case: &Case, run: &RunOut, ctx: &mut Ctx) -> Result<(), Fail> {
@@ -243,7 +267,7 @@ fn oracle(case: &Case, run: &RunOut, ctx: &mut Ctx) -> Result<(), Fail> {
 fn decode(src: &mut Source) -> Case {
     let ne = 1 + src.below(3);
     let emitters = (0..ne).map(|_| (0..1 + src.below(3)).map(|_| *src.pick(&[EOp::Counter, EOp::Describe, EOp::Gauge, EOp::Histogram])).collect()).collect();
-    Case { emitters, owner_delay: src.below(3), owner_into_inner: src.byte() < 176 }
+    Case { emitters, owner_delay: src.below(3), owner_into_inner: src.byte() < 176, retain: src.below(4) == 3 }
 }
 
 pub fn case_sched(bytes: &[u8], sched_bytes: &[u8], ctx: &mut Ctx) -> Result<(), Fail> {
@@ -255,7 +279,7 @@ pub fn case_sched(bytes: &[u8], sched_bytes: &[u8], ctx: &mut Ctx) -> Result<(),
 }
 
 fn scenarios() -> Vec<Case> {
-    vec![Case { emitters: vec![vec![EOp::Counter, EOp::Describe]], owner_delay: 0, owner_into_inner: true }, Case { emitters: vec![vec![EOp::Gauge, EOp::Counter]], owner_delay: 0, owner_into_inner: false }]
+    vec![Case { emitters: vec![vec![EOp::Counter, EOp::Describe]], owner_delay: 0, owner_into_inner: true, retain: false }, Case { emitters: vec![vec![EOp::Gauge, EOp::Counter]], owner_delay: 0, owner_into_inner: false, retain: false }]
 }
 
 pub fn case_exhaustive_replay(bytes: &[u8], _s: &[u8], ctx: &mut Ctx) -> Result<(), Fail> {
@@ -447,8 +471,20 @@ pub fn case_passthrough(bytes: &[u8], _s: &[u8], ctx: &mut Ctx) -> Result<(), Fa
             (self.0)()
         }
     }
+    // in a quarter of the cases the caller keeps every handle its register calls return until the case is over
+    let retain = src.below(4) == 3;
+    // (with kept handles only the handle-drop path is taken here: a library that lets a kept handle hold the recorder
+    // would make into_inner() spin for ever; the schedule lane covers that combination, where a livelock is detected)
+    let into_inner = into_inner && !retain;
+    let kept: std::cell::RefCell<Vec<crate::doubles::KeptHandle>> = Default::default();
     for (i, c) in calls[..n_alive].iter().enumerate() {
-        if unwind_mask & (1 << i) != 0 && unwind_mask >= 128 {
+        if retain {
+            if matches!(c, RecCall::Register { .. }) {
+                ctx.nontrivial("metric-handle-kept-across-the-recovery");
+            }
+            c.apply_keeping(&wrapped, Some(&mut *kept.borrow_mut()));
+            c.apply(&direct);
+        } else if unwind_mask & (1 << i) != 0 && unwind_mask >= 128 {
             ctx.nontrivial("call-made-while-unwinding");
             let _ = std::panic::catch_unwind(std::panic::AssertUnwindSafe(|| {
                 let _g = OnDrop(|| {
@@ -484,6 +520,7 @@ pub fn case_passthrough(bytes: &[u8], _s: &[u8], ctx: &mut Ctx) -> Result<(), Fa
     }
     drop(wrapped);
     ensure!(drops.load(Ordering::SeqCst) == 1, "recorder-not-dropped-exactly-once", "dropped {} times", drops.load(Ordering::SeqCst));
+    drop(kept);
     Ok(())
 }
 
